@@ -320,9 +320,14 @@ def register(reg):
             fields['_parent_parsing_state_info'] = (new_obj(it, PS, gp, tag='grandparent'), PyDict())
         self = new_obj(it, PS, fields, tag='self')
         keys = CONFIGS[ctx.choose(len(CONFIGS), 'keys given to sub_context')]
-        kw = PyDict({k: absfield(it, 'new.' + k) for k in keys})
+        # a requested value may be None (e.g. math_mode_delimiter=None when a math environment is entered; a delimiter list
+        # given as None means the default list)
+        kw = PyDict({k: (None if ctx.choose(2, 'the value given for %s is None' % k) == 1 else absfield(it, 'new.' + k)) for k in keys})
         return {'self': self, 'kwargs': kw}
 
+    LIST_DEFAULTS = {'latex_group_delimiters': "[('{', '}')]",
+                     'latex_inline_math_delimiters': "[('$', '$'), ('\\\\(', '\\\\)')]",
+                     'latex_display_math_delimiters': "[('$$', '$$'), ('\\\\[', '\\\\]')]"}
     NORMAL = "(self.in_math_mode or not self.math_mode_delimiter)"
     ens = [('records-its-parent', 'result._parent_parsing_state_info[0] is self'),
            ('a-new-object', 'result is not self')]
@@ -332,6 +337,10 @@ def register(reg):
             ens.append(('field-%s-requested-or-inherited-then-normalised' % f,
                         "implies(not result.in_math_mode and %s, result.%s is None) and "
                         "implies(not (not result.in_math_mode and %s), result.%s is %s)" % (REQ, f, REQ, f, REQ)))
+        elif f in LIST_DEFAULTS:
+            ens.append(('field-%s-is-the-requested-value-the-default-list-for-None-or-the-inherited-value' % f,
+                        "(result.%s == %s) if ('%s' in kwargs and kwargs['%s'] is None) else "
+                        "(result.%s is (kwargs['%s'] if '%s' in kwargs else self.%s))" % (f, LIST_DEFAULTS[f], f, f, f, f, f, f)))
         else:
             ens.append(('field-%s-is-the-requested-or-the-inherited-value' % f,
                         "result.%s is (kwargs['%s'] if '%s' in kwargs else self.%s)" % (f, f, f, f)))
@@ -406,17 +415,44 @@ CHANGES = [dict(in_math_mode=True, math_mode_delimiter="$"), dict(in_math_mode=T
            dict(latex_inline_math_delimiters=[("$", "$"), ("!", "!")]), dict(latex_inline_math_delimiters=[("$", "!!")]), dict(latex_display_math_delimiters=[("[[", "]]"), ("$$", "$$")]),
            dict(latex_group_delimiters=[("{", "}"), ("[", "]")]), dict(latex_group_delimiters=[("<", ">")]),
            dict(enable_groups=False), dict(enable_groups=True), dict(enable_comments=False), dict(math_mode_delimiter="!"),
-           dict(in_math_mode=True, math_mode_delimiter="[[")]
+           dict(in_math_mode=True, math_mode_delimiter="[["), dict(math_mode_delimiter=None), dict(in_math_mode=True, math_mode_delimiter=None),
+           dict(latex_inline_math_delimiters=None), dict(latex_group_delimiters=None)]
+DEFAULT_LISTS = {"latex_group_delimiters": [("{", "}")], "latex_inline_math_delimiters": [("$", "$"), ("\\(", "\\)")],
+                 "latex_display_math_delimiters": [("$$", "$$"), ("\\[", "\\]")]}
+
+ALL_FIELDS = ['s', 'latex_context', 'in_math_mode', 'math_mode_delimiter', 'latex_group_delimiters', 'latex_inline_math_delimiters', 'latex_display_math_delimiters', 'enable_double_newline_paragraphs', 'enable_macros', 'enable_environments', 'enable_comments', 'enable_groups', 'enable_specials', 'enable_math', 'macro_alpha_chars', 'macro_escape_char', 'comment_start', 'forbidden_characters']
+
+def apply_model(model, step):
+    """the documented effect of sub_context(**step) on the public fields"""
+    m = dict(model); m.update(step)
+    for k, d in DEFAULT_LISTS.items():
+        if m[k] is None: m[k] = list(d)
+    if not m["in_math_mode"]: m["math_mode_delimiter"] = None
+    return m
 INPUTS = ["a $$ b $ c", "[[x]] {y} <z> [w]", "a ! b % c\n", "\\(x\\) $y$ $$z$$"]
 
 def check_chain(chain):
     st = ParsingState(s="")
+    model = {k: getattr(st, k) for k in ALL_FIELDS}
     for step in chain:
         parent_fields = st.get_fields(); parent_tables = {t: getattr(st, t) for t in TABLES}
         child = st.sub_context(**step)
         if st.get_fields() != parent_fields or any(getattr(st, t) is not parent_tables[t] for t in TABLES):
             return "sub_context(%r) altered the state it was called on" % (step,)
+        model = apply_model(model, step)
+        if set(child.get_fields()) != set(ALL_FIELDS):
+            return "get_fields() of a derived state has the keys %r, the public fields are %r" % (sorted(child.get_fields()), sorted(ALL_FIELDS))
+        got = {k: getattr(child, k) for k in ALL_FIELDS}
+        if any(got[k] != model[k] for k in model):
+            bad = [k for k in model if got.get(k) != model[k]]
+            return "after %r the field(s) %r of the derived state are %r, requested / inherited: %r" % (
+                chain, bad, [got.get(k) for k in bad], [model[k] for k in bad])
         st = child
+    # the same chain written as one chained delta
+    from pylatexenc.latexnodes import ParsingStateDelta, ParsingStateDeltaChained
+    ch = ParsingStateDeltaChained([ParsingStateDelta(set_attributes=dict(step)) for step in chain]).get_updated_parsing_state(ParsingState(s=""), None)
+    if ch.get_fields() != st.get_fields():
+        return "ParsingStateDeltaChained over %r gives fields %r, the sub_context chain gives %r" % (chain, ch.get_fields(), st.get_fields())
     fresh = ParsingState(**st.get_fields())
     for t in TABLES:
         if norm(getattr(st, t)) != norm(getattr(fresh, t)):
